@@ -36,6 +36,8 @@ def scenario(args):
     moment = rng.choice(["gathering", "mid-check", "ready", "ready", "data", "early-checks"])
     if moment == "early-checks":
         cfg.update(ctrlA=0, ctrlB=1, loss=0, dup=0)
+    elif rng.random() < 0.4:
+        cfg["nat"] = rng.choice(["A", "B"])       # local peer-reflexive candidates survive a restart
     s = None
     bad, known = [], []
     creds_seen = {"A": [], "B": []}
@@ -94,9 +96,10 @@ def scenario(args):
                     s.op("run 5")
         # capture an authenticated pre-restart request A -> B (full bytes) for the replay attack
         for e in s.events():
-            m = re.search(r"tx A (\S+)->(\S+) len=\d+ stun class=0 method=1 .*mi=1 .* hex=(\w+)", e)
-            if m:
-                captured.append((m.group(1), m.group(2), m.group(3)))
+            # as delivered (after any NAT translation), in both directions: (target agent, src, dst, bytes)
+            m = re.search(r"rx (\w+) (\S+)->(\S+) len=\d+ stun class=0 method=1 .*mi=1 .* hex=(\w+)", e)
+            if m and m.group(1) in ("A", "B"):
+                captured.append((m.group(1), m.group(2), m.group(3), m.group(4)))
         for r in range(rng.randint(1, 5)):
             first = rng.choice("AB")
             second = "B" if first == "A" else "A"
@@ -134,15 +137,16 @@ def scenario(args):
             # replay a captured pre-restart request against B (spoofing A's address)
             nev0 = len(s.events())
             if captured and rng.random() < 0.7:
-                src, dst, hx = rng.choice(captured)
-                s.op(f"inject {src} {dst} {hx}")
-                ev, _ = s.op("run 30")
-                for e in ev:
-                    if " state " in e or "new-remote-candidate" in e or " selected " in e:
-                        bad.append(("old-password-accepted", f"a check authenticated with the pre-restart password changed the agent: {e[:160]}"))
-                    m = re.search(r"tx B \S+ len=\d+ stun class=(\d) method=1 .*err=(\d+)", e)
-                    if m and m.group(1) == "2":
-                        bad.append(("old-password-accepted", f"B answered a pre-restart check with success: {e[:160]}"))
+                for tgt, src, dst, hx in rng.sample(captured, min(3, len(captured))):
+                    s.op(f"inject {src} {dst} {hx}")
+                    ev, _ = s.op("run 30")
+                    txid = hx[8:40]
+                    for e in ev:
+                        if " state " in e or "new-remote-candidate" in e or " selected " in e:
+                            bad.append(("old-password-accepted", f"a check authenticated with the pre-restart password changed the agent: {e[:160]}"))
+                        m = re.search(rf"tx {tgt} \S+ len=\d+ stun class=(\d) method=1 .*err=(\d+) .*txid={txid}", e)
+                        if m and m.group(1) == "2":
+                            bad.append(("old-password-accepted", f"{tgt} answered a replayed pre-restart check with success: {e[:160]}"))
             # new exchange
             cfg2 = dict(cfg, anyorder=False)
             steps = sc.signalling_steps(rng, cfg2)
